@@ -99,6 +99,16 @@ func (s *Solver) send(format string, args ...interface{}) {
 	}
 }
 
+// sendRaw writes to the solver without recording the line in the replayable script.
+func (s *Solver) sendRaw(format string, args ...interface{}) {
+	str := fmt.Sprintf(format, args...)
+	s.in.WriteString(str)
+	s.in.WriteByte('\n')
+	if s.log != nil {
+		s.log.WriteString(str + "\n")
+	}
+}
+
 func (s *Solver) Close() {
 	if s.dead {
 		return
@@ -227,7 +237,8 @@ func (s *Solver) Check(extra *Term, wantModel bool, vars []*Term) (SatResult, ma
 	}
 	s.send("(push 1)")
 	if extra != nil {
-		s.send("(assert %s)", refName(extra))
+		// temporary: must not enter the recorded script (sendRaw does not record)
+		s.sendRaw("(assert %s)", refName(extra))
 	}
 	s.send("(check-sat)")
 	s.in.Flush()
@@ -307,6 +318,21 @@ func parseModel(txt string) map[string]uint64 {
 		}
 	}
 	return m
+}
+
+// DumpQuery writes the current assertions plus extra as a stand-alone SMT-LIB2 script (debugging aid).
+func (s *Solver) DumpQuery(extra *Term, path string) {
+	s.define(extra)
+	var sb strings.Builder
+	sb.WriteString("(set-logic ALL)\n(set-option :produce-models true)\n")
+	for _, sc := range s.script {
+		for _, l := range sc {
+			sb.WriteString(l)
+			sb.WriteByte('\n')
+		}
+	}
+	fmt.Fprintf(&sb, "(assert %s)\n(check-sat)\n(get-model)\n", refName(extra))
+	os.WriteFile(path, []byte(sb.String()), 0o644)
 }
 
 // Resolve re-asks the current assertions plus extra in fresh one-shot solver processes (different engines and a
